@@ -108,7 +108,14 @@ static double _GD_GetIndex(DIRFILE* D, gd_entry_t *E, int repr, double value,
      * which our value lies */
     for (;;) {
       c = (high + low) / 2;
-      n = _GD_DoField(D, E, repr, c, 1, GD_FLOAT64, &c_v);
+      if (c == low) {
+        /* high - low == 1 and high is known to be past the end-of-field, so
+         * low is the last sample: treat high as the (empty) probe instead of
+         * re-reading low for ever */
+        c = high;
+        n = 0;
+      } else
+        n = _GD_DoField(D, E, repr, c, 1, GD_FLOAT64, &c_v);
 
       if (D->error) {
         dreturn("%.15g", sample);
@@ -160,6 +167,11 @@ static double _GD_GetIndex(DIRFILE* D, gd_entry_t *E, int repr, double value,
           /* above our guess -- still need to look for the end */
           low = c;
           low_v = c_v;
+        } else {
+          /* our guess was unexpectedly correct */
+          sample = (double)c;
+          dreturn("%.15g", sample);
+          return sample;
         }
       }
     }
